@@ -438,3 +438,158 @@ Proof.
     rewrite Hs, lift_single. split; [reflexivity|now apply in_map].
   - destruct (IHt Hw) as (c & Hs & Hd). exists c. cbn [sigs den]. rewrite Hs, lift_single. now split.
 Qed.
+
+(* ------------------------------------------------------------------ channel-by-channel statements *)
+(* unary adaptor contexts *)
+Inductive unary : (term -> term) -> Prop :=
+  | U_then f : unary (Then f)
+  | U_let_value thr k : unary (LetValue thr k)
+  | U_let_error thr k : unary (LetError thr k)
+  | U_split1 : unary (Split 1)
+  | U_split_tuple : unary SplitTuple
+  | U_ensure_started : unary EnsureStarted
+  | U_drop_value : unary DropValue
+  | U_drop_op_state : unary DropOpState
+  | U_require_started : unary RequireStarted
+  | U_unpack : unary Unpack
+  | U_continues_on s : unary (ContinuesOn s)
+  | U_bulk n f : unary (Bulk n f)
+  | U_erased : unary Erased
+  | U_comp a b : unary a -> unary b -> unary (fun t => a (b t)).
+
+Lemma split1 c : wav_run 1 (indexed 1 [Sig c]) = [Sig c].
+Proof. destruct c; cbn; rewrite ?app_nil_r; reflexivity. Qed.
+
+Lemma split_tuple_fail c : is_val c = false ->
+  join_run 2 (flat_map (fun i => map (fun e => (i, tuple_elem i e)) [Sig c]) (seq 0 2)) = [Sig c].
+Proof. destruct c; [discriminate| |]; reflexivity. Qed.
+
+(* stopped stays stopped through every unary adaptor *)
+Theorem stopped_propagates A : unary A -> forall t, sigs t = [Sig CStopped] -> sigs (A t) = [Sig CStopped].
+Proof.
+  induction 1; intros t Ht; cbn [sigs]; rewrite ?Ht, ?lift_single, ?bind_single, ?consumer_events_single;
+    try reflexivity; try (now apply IHunary1, IHunary2).
+Qed.
+
+(* an upstream error arrives as that error through every adaptor except let_error (which handles it) *)
+Inductive no_handler : (term -> term) -> Prop :=
+  | N_then f : no_handler (Then f)
+  | N_let_value thr k : no_handler (LetValue thr k)
+  | N_split1 : no_handler (Split 1)
+  | N_split_tuple : no_handler SplitTuple
+  | N_ensure_started : no_handler EnsureStarted
+  | N_drop_value : no_handler DropValue
+  | N_drop_op_state : no_handler DropOpState
+  | N_require_started : no_handler RequireStarted
+  | N_unpack : no_handler Unpack
+  | N_continues_on s : no_handler (ContinuesOn s)
+  | N_bulk n f : no_handler (Bulk n f)
+  | N_erased : no_handler Erased
+  | N_comp a b : no_handler a -> no_handler b -> no_handler (fun t => a (b t)).
+
+Theorem error_propagates A : no_handler A -> forall t e, sigs t = [Sig (CErr e)] -> sigs (A t) = [Sig (CErr e)].
+Proof.
+  induction 1; intros t e Ht; cbn [sigs]; rewrite ?Ht, ?lift_single, ?bind_single, ?consumer_events_single;
+    try reflexivity; try (now apply IHno_handler1, IHno_handler2).
+Qed.
+
+(* an exception thrown by a user callable arrives as that error *)
+Theorem then_exception f t vs e : sigs t = [Sig (CVal vs)] -> f vs = inr e -> sigs (Then f t) = [Sig (CErr e)].
+Proof. intros Ht Hf. cbn [sigs]. rewrite Ht, lift_single. cbn [then_c]. now rewrite Hf. Qed.
+
+Theorem then_value f t vs v : sigs t = [Sig (CVal vs)] -> f vs = inl v -> sigs (Then f t) = [Sig (CVal v)].
+Proof. intros Ht Hf. cbn [sigs]. rewrite Ht, lift_single. cbn [then_c]. now rewrite Hf. Qed.
+
+Theorem let_value_exception thr k t vs e :
+  sigs t = [Sig (CVal vs)] -> thr vs = Some e -> sigs (LetValue thr k t) = [Sig (CErr e)].
+Proof. intros Ht Hf. cbn [sigs]. rewrite Ht, bind_single. now rewrite Hf. Qed.
+
+Theorem let_value_successor thr k t vs :
+  sigs t = [Sig (CVal vs)] -> thr vs = None -> sigs (LetValue thr k t) = sigs (k vs).
+Proof. intros Ht Hf. cbn [sigs]. rewrite Ht, bind_single. now rewrite Hf. Qed.
+
+Theorem let_error_successor thr k t e :
+  sigs t = [Sig (CErr e)] -> thr e = None -> sigs (LetError thr k t) = sigs (k e).
+Proof. intros Ht Hf. cbn [sigs]. rewrite Ht, bind_single. now rewrite Hf. Qed.
+
+Theorem bulk_exception n f t vs e :
+  sigs t = [Sig (CVal vs)] -> bulk_loop f 0%N (N.to_nat n) vs = Some e -> sigs (Bulk n f t) = [Sig (CErr e)].
+Proof. intros Ht Hf. cbn [sigs]. rewrite Ht, lift_single. cbn [bulk_c]. now rewrite Hf. Qed.
+
+(* values arrive unchanged through the value-transparent adaptors *)
+Inductive transparent : (term -> term) -> Prop :=
+  | T_split1 : transparent (Split 1)
+  | T_split_tuple : transparent SplitTuple
+  | T_ensure_started : transparent EnsureStarted
+  | T_drop_op_state : transparent DropOpState
+  | T_require_started : transparent RequireStarted
+  | T_unpack : transparent Unpack
+  | T_continues_on : transparent (ContinuesOn SchedOk)
+  | T_erased : transparent Erased
+  | T_comp a b : transparent a -> transparent b -> transparent (fun t => a (b t)).
+
+Lemma split_tuple_val vs :
+  join_run 2 (flat_map (fun i => map (fun e => (i, tuple_elem i e)) [Sig (CVal vs)]) (seq 0 2)) = [Sig (CVal vs)].
+Proof.
+  change (join_run (length [CVal (half 0 vs); CVal (half 1 vs)]) (ilist 0 [CVal (half 0 vs); CVal (half 1 vs)]) = [Sig (CVal vs)]).
+  rewrite join_run_seq by discriminate.
+  unfold join_seq. cbn [first_fail is_val flat_map val_of]. rewrite app_nil_r, half_app. reflexivity.
+Qed.
+
+Theorem values_unchanged A : transparent A -> forall t vs, sigs t = [Sig (CVal vs)] -> sigs (A t) = [Sig (CVal vs)].
+Proof.
+  induction 1; intros t vs Ht; cbn [sigs]; rewrite ?Ht, ?lift_single, ?consumer_events_single; try reflexivity.
+  - cbn. now rewrite app_nil_r.
+  - apply split_tuple_val.
+  - eapply IHtransparent1, IHtransparent2, Ht.
+Qed.
+
+(* when_all / when_all_vector: values of all children, concatenated in child order — or the
+   completion of the first failing child (children complete in index order when inline) *)
+Theorem when_all_seq ts cs : ts <> [] -> Forall2 (fun t c => sigs t = [Sig c]) ts cs ->
+  sigs (WhenAll ts) = [Sig (join_seq cs)] /\ sigs (WhenAllVector ts) = [Sig (join_seq cs)].
+Proof.
+  intros Hne H.
+  assert (Hg : forall i, go_sig i ts = ilist i cs).
+  { clear Hne. induction H as [|t c ts cs Hs _ IH]; intros i; [reflexivity|].
+    cbn [go_sig]. rewrite Hs. unfold ilist. cbn [length seq map combine app]. f_equal. apply IH. }
+  cbn [sigs].
+  change (join_run (length ts) (go_sig 0 ts) = [Sig (join_seq cs)] /\
+          wav_run (length ts) (go_sig 0 ts) = [Sig (join_seq cs)]).
+  rewrite Hg, (Forall2_length_eq _ _ _ H). split; [|apply wav_run_seq].
+  apply join_run_seq. intros ->. inversion H. congruence.
+Qed.
+
+(* value iff no child failed, with the values in child order *)
+Corollary when_all_values ts vss : ts <> [] -> Forall2 (fun t vs => sigs t = [Sig (CVal vs)]) ts vss ->
+  sigs (WhenAll ts) = [Sig (CVal (concat vss))].
+Proof.
+  intros Hne H.
+  assert (H2 : Forall2 (fun t c => sigs t = [Sig c]) ts (map CVal vss)).
+  { clear Hne. induction H; cbn [map]; constructor; assumption. }
+  destruct (when_all_seq ts _ Hne H2) as [-> _]. do 2 f_equal.
+  unfold join_seq.
+  assert (Hff : first_fail (map CVal vss) = None) by (clear; induction vss; [reflexivity|exact IHvss]).
+  rewrite Hff. f_equal. rewrite flat_map_concat_map, map_map. cbn [val_of]. now rewrite map_id.
+Qed.
+
+Corollary when_all_failure ts cs c : Forall2 (fun t c => sigs t = [Sig c]) ts cs ->
+  first_fail cs = Some c -> sigs (WhenAll ts) = [Sig c] /\ is_val c = false.
+Proof.
+  intros H Hf. assert (Hne : ts <> []) by (intros ->; inversion H; subst; discriminate).
+  destruct (when_all_seq ts cs Hne H) as [-> _]. unfold join_seq. rewrite Hf. split; [reflexivity|].
+  now destruct (first_fail_in _ _ Hf).
+Qed.
+
+(* sync_wait / start_detached at the end of a pipeline *)
+Theorem sync_wait_partial t c : sigs t = [Sig c] -> c <> CStopped ->
+  sync_wait (sigs t) = match c with CVal vs => SwRet vs | CErr e => SwThrow e | CStopped => SwAbort end.
+Proof. intros -> H. destruct c; try reflexivity. Qed.
+
+(* F18: sync_wait of a sender that completes with stopped reaches PIKA_UNREACHABLE *)
+Theorem sync_wait_stopped_refuted : exists t, wf t /\ sigs t = [Sig CStopped] /\ sync_wait (sigs t) = SwAbort.
+Proof. exists JustStopped. repeat split. Qed.
+
+Theorem start_detached_releases_once t c : sigs t = [Sig c] ->
+  start_detached (sigs t) = match c with CErr _ => SdTerminate | _ => SdReleased 1 end.
+Proof. intros ->. destruct c; reflexivity. Qed.
